@@ -12,7 +12,7 @@ LEVEL_NOTE = ('Trusted: Lean 4.33 kernel; axioms ⊆ {propext, Classical.choice,
 
 CHECKS = {
     'C17': ('Lean theorems C17.* (lines = depth-first pieces, no stored line has a boundary, str form, '
-            'round trip, append/+ = concatenation, trim, chunk) for all content trees; model tied to '
+            'round trip, append/+ = concatenation, trim, chunk, cond_chunk) for all content trees; model tied to '
             'text_gen.py/misc_utils.py by differential runs over generated content trees; the monitor '
             'evaluates the same specification on the implementation output.', '§6 C17', ''),
     'C18': ('Lean theorems C18.* (every clause of the indentation specification holds for all '
@@ -45,47 +45,32 @@ CHECKS.update({
 PROG_NOTE = ('Program-level: the Dezyne C++ runtime and the Dezyne-generated model header are mocked (harness/cxx, '
              'DESIGN Appendix B); generated headers get a leading "#pragma once" (guard shim, finding D-7) except in C06.')
 CHECKS.update({
-    'C01': ('Lean theorems C01.* over the wiring semantics (DznModel.Sem): store after assignments, env→comp and comp→env '
-            'forwarding exactly once with intact arguments/reply/out-values, post-then-deliver, arguments in declared order '
-            'for every generated lambda; tie: byte-exact model of Builder.build + real generator output compiled against the '
-            'mock runtime, program traces compared with the model traces, monitor per stimulus.', '§6 C01', PROG_NOTE),
-    'C02': ('Lean theorems C02.* (MTS provides in-events run in dispatcher context through dzn::shell, MTS requires '
-            'out-events are queued by value and delivered in dispatcher context, dangling captures are flagged, STS '
-            'pass-through, accessor types, partition); tie: compiled programs (dispatch flag, posted/shell counters, '
-            'identity, static_assert of accessor types) + text-level capture-list monitor on exotic extern types.', '§6 C02', PROG_NOTE),
-    'C04': ('Lean theorems C04.* (selector refines the holder specification for all histories without foreign release, '
-            'soundness, ungranted claims, deliver-to-selected-only, names from configuration, cfg errors) + proved witness '
-            'of finding D-9; tie: compiled multi-client programs on random claim/release/out histories.', '§6 C04',
-            PROG_NOTE + ' Partial while D-9 is recorded.'),
-    'C06': ('PARTIAL. Lean theorems C06.* on the generator model and the translated include tables (eight files, support '
-            'file names, include closure of support headers, named scope for non-global encapsulees, proved witness of D-8); '
-            'structural clauses monitored on the real file sets; compiler acceptance only sampled (g++: headers alone/twice, '
-            'two prefixes, shell used from a second TU and linked, verbatim files).', '§6 C06',
-            'Compiler acceptance is not provable in the model; seven recorded findings (known_findings.json).'),
+    'C01': ("Lean theorems C01.*: at the level of Builder.build (build_forwards_in_event, build_forwards_requires_out, build_forwards_provides_out): for every model and configuration the builder accepts, in the shell constructed from the generated wiring every in-event of a multi-threaded provides port / out-event of a requires port / out-event raised by the component is forwarded exactly once, intact, in declared order, with reply and out-values carried back; below them assign_origin (every constructor assignment is one of six kinds), constructed_store (what the slots hold after the constructor), a worked instance (ex_forwarded). Tie: byte-exact text model of Builder.build; routing table read back from the IMPLEMENTATION's source text (DznModel.IrParse) and compared in Lean with the table the Dezyne model demands (DznModel.SpecRouting); real generator output compiled against the mock runtime, traces compared with Sem.runScript.",
+            '§0, §6 C01', PROG_NOTE),
+    'C02': ("Lean theorems C02.* incl. build-level corollaries (build_mts_in_event_in_dispatcher: through dzn::shell once, observed with disp=1, reply after the dispatcher ran; build_mts_requires_out_queued: returns at once, closure owns copies, dispatcher runs it; build_sts_port_bypasses_dispatcher: no constructor assignment touches an STS port, the call runs the component's handler directly), dangling captures flagged, accessor types, partition; tie: routing table from the implementation text (by-value capture lists), compiled programs (dispatch flag, posted/shell counters, identity, static_assert of accessor types), text-level capture-list monitor on exotic extern types.",
+            '§0, §6 C02', PROG_NOTE),
+    'C04': ("Lean theorems C04.*: the generated per-client wrappers EXECUTED over whole histories (history_refines: after any sequence of claims/releases by any number of registered clients the slots are unchanged, nothing is pending and the selector is the abstract machine's state; history_delivery: an out-event is observed by exactly the selected client or by nobody; history_holder: = the specification's holder when nobody releases a foreign claim), frame_invoke_drain (calls never rebind events), refinement/soundness of the abstract machine, names from configuration, cfg errors, worked shell (mc_wired, mc_example) + proved witness of finding D-9; tie: routing table incl. per-client wrappers from the implementation text, compiled multi-client programs on random claim/release/out histories.",
+            '§0, §6 C04', PROG_NOTE + ' Partial while D-9 is recorded.'),
+    'C06': ('PARTIAL. Lean theorems C06.* on the generator model and the translated include tables (eight files, support file names, include closure of support headers and of the shell header, named scope for non-global encapsulees, proved witness of D-8); structural clauses (incl. every m_ member the source uses is declared, every declared function defined once with matching signature) evaluated in Lean on the real file sets; full-text correspondence with the model; compiler acceptance only sampled (g++: headers alone/twice, two prefixes, shell used from a second TU and linked, verbatim files).',
+            '§0, §6 C06', 'Compiler acceptance is not provable in the model; seven recorded findings (known_findings.json).'),
     'C07': ('Monitor: specification lookup (unique member of the scope chain, of the right kind) decides accessor and lambda '
             'types or demands a library error, on name-clash model families; tie: byte-exact model of the builder; Lean: '
             'C14.find_fqn_spec (lookup = chain filter) underlies both; C07-specific theorems listed in the evidence.', '§6 C07', ''),
-    'C08': ('Tie: child interpreters with PYTHONHASHSEED 0..15 x shuffled set construction orders, sha256 of all files equal '
-            'across children and equal to the Lean model output; GeneratedContent.hash = model MD5; Lean: order-freedom '
-            'lemmas of the port-selection model and MD5 test vectors.', '§6 C08', ''),
-    'C09': ('Lean theorems C09.* (create succeeds iff no facilities in the prototype, import iff both, ownership/identity '
-            'bookkeeping, failure before the component exists, Locator()/runtime members iff create); tie: compiled '
-            'programs over all 2^3 locator contents x origin.', '§6 C09', PROG_NOTE),
-    'C10': ('Lean theorems C10.* (check_bindings ⇔ all events bound, binding error names the slot, detection of any single '
-            'unbound boundary or component slot, locked after success, all-bound ⇒ success); tie: compiled programs with '
-            'EVERY single slot left unbound in turn.', '§6 C10', PROG_NOTE),
+    'C08': ('Lean: order-freedom theorems of the port-selection model up to build_cfg_order_free, MD5 (RFC 1321 vectors by kernel evaluation); tie: child interpreters with PYTHONHASHSEED 0..15 x shuffled set construction orders x a different order of the builds inside each process, sha256 of all files equal across children and equal to the Lean model output; GeneratedContent.hash = model MD5.',
+            '§6 C08', ''),
+    'C09': ("Lean theorems C09.*: the semantics reads the facility initialisers from the IR's member-initialiser list (milFacts); createConstructor_mil / build_milFacts say what the generator emits; build_create / build_import: for every accepted model and configuration construction succeeds iff (create) the prototype carries neither dispatcher nor runtime / (import) both, with the ownership/identity bookkeeping of each origin; no_check_no_failure; Locator()/runtime members iff create; tie: compiled programs over all 2^3 locator contents x origin + text correspondence.",
+            '§0, §6 C09', PROG_NOTE),
+    'C10': ('Lean theorems C10.*: the semantics executes the GENERATED FinalConstruct statements (ir.finalConstruct); createFinalConstructFn_stmts / build_final_stmts say which statements are generated; build_detects_unbound_boundary / _component / _client: in the shell generated for any accepted model and configuration a single unbound event of an exposed port, of a component port or of a registered client port makes final construction fail; locked after success, all-bound ⇒ success; tie: compiled programs with EVERY single slot left unbound in turn + text correspondence.',
+            '§0, §6 C10', PROG_NOTE),
     'C11': ('PARTIAL. Lean theorems C11.* over an interleaving model (any number of threads, any schedule): inductive mutual '
             'exclusion invariant, selection accessed only by the lock owner, RAII of the lock handle, no deadlock, proved '
             'witness of the D-9 race; tie: real shells with a threaded mock pump, 2-3 client threads + dispatcher thread, '
             'g++ runs monitored against the holder specification, clang++ ThreadSanitizer runs for data races.', '§6 C11',
             'C++ memory model, std::mutex, the real dzn::pump are not exhibited by the model; schedules are sampled by the OS.'),
-    'C12': ('Lean theorems C12.* (builder state machine is history free, outputs of a history = fresh builds, support files '
-            'stand alone); tie: histories of builds on shared parsed models with deep before/after snapshots, every result '
-            'compared with a fresh interpreter and with the model.', '§6 C12',
-            'Purity of the model is by construction; the substance for the implementation is the tie.'),
-    'C13': ('Tie + monitor: valid cases and every applicable single-fault variation, outcome class and file-name list compared '
-            'with the byte-exact Lean model of Builder.build which carries Python failure modes (internal/deliberate '
-            'errors are representable); generator-labelled expectation as independent oracle.', '§6 C13', ''),
+    'C12': ('Lean theorems C12.* (builder state machine is history free, outputs of a history = fresh builds, support files stand alone); tie: histories of builds on shared parsed models, sibling models (same names, other meanings) and colliding prefixes, deep before/after snapshots, every result compared with a fresh interpreter and with the model.',
+            '§6 C12', 'Purity of the model is by construction; the substance for the implementation is the tie.'),
+    'C13': ('Lean theorems C13.* (trichotomy of build: files / library error, never internal; complete_file_set; valid_succeeds for the declarative predicate Valid with a worked instance; invalid_fails per class of invalid input); tie + monitor: valid cases and every applicable single-fault variation (incl. ALL next to REMAINING/ALL, ambiguous port type), outcome class and file-name list compared with the byte-exact Lean model of Builder.build which carries Python failure modes; generator-labelled expectation as independent oracle.',
+            '§0, §6 C13', ''),
 })
 
 CHECKS.update({
